@@ -66,7 +66,7 @@ PARTIAL = [
     "(C03_create_calls_documented; validation waived for the lenient creations) — Lemmas/ParserTraceInv.trace_calls_docOk.  For "
     "cif_container_create_loop and cif_container_prune Spec/DataModel has no function; their premises (names not in use, pairwise distinct, "
     "not empty) are part of SOp.docOk; "
-    "block creation composes with the store model's createBlock (C03_store_step_mkBlock, via C04_refines_create_block).  NOT PROVED: "
+    "block creation composes with the store model's createBlock (C03_store_step_mkBlock, via C04_refines_create_block).  [SUPERSEDED by the gX item at the end of this list: the statement is now a theorem] Formerly not proved: "
     "C03_parser_store_refines_full (a def) — the recorded calls translated into a Store.Op history (Model/ParserStoreOps.storeOps) and run "
     "through Store.step from a new CIF all return CIF_OK and end in a store whose abstraction Store.abs IS the parser model's CIF.  It is "
     "EXECUTED by the model driver on every request of family parse with a target (fresh: about 6 100 per quick run; pre-filled, the "
